@@ -756,6 +756,7 @@ type wgenOpts struct {
 	noPreLet   bool // never test `break if` on a let bound before the counter's increment
 	preLetBoost bool // make that form the usual one (knob programs)
 	ptrLet     bool // `let p = &place;` bindings, read and written through `*p`
+	noArrRead  bool // no `a[i]` value reads of local arrays and no array-typed `let`
 	froundBoost bool // knob programs: round() of run-time half-integers stored to the output
 	fround     bool // round() on half-integers (C04/C05 findings: MSL round is ties-away, GLSL round leaves ties open)
 	contCall   bool // a helper that is the only user of a private global, called only from a loop's continuing block / for-update
@@ -907,6 +908,13 @@ func (g *wgen) expr(t *wty, depth int) *wexpr {
 		return g.conversion(t, depth)
 	case r < 82 && t.k == "vec":
 		return g.construct(t, depth)
+	case r < 86 && !g.o.noArrRead:
+		if e := g.elemRead(t); e != nil {
+			return e
+		}
+		if t.isScalar() {
+			return g.component(t, depth)
+		}
 	case r < 90 && t.isScalar():
 		return g.component(t, depth)
 	case r < 96 && len(g.funcs) > 0:
@@ -1162,7 +1170,7 @@ func (g *wgen) builtin(t *wty, depth int) *wexpr {
 		switch g.c.rng.Intn(6) {
 		case 4, 5:
 			// rounding to an integral value is exact in every target; the operand is a half-integer so that ties occur
-			return call(g.c.pick("floor", "ceil", "trunc"), g.halves(t))
+			return call(g.c.pick("floor", "ceil", "trunc", "sign"), g.halves(t))
 		case 0:
 			return call("abs", g.leaf(t))
 		case 1:
@@ -1337,6 +1345,29 @@ func (g *wgen) ptrArg(t *wty, used map[string]bool) *wexpr {
 		g.f("ptr-arg-component")
 	}
 	return &wexpr{k: "addr", ty: t, args: []*wexpr{c.e}}
+}
+
+// elemRead: `a[i]` as a value for a visible array `a` (a `var`, a `let` or a by-value parameter) with element type t;
+// the index is a literal or a run-time value reduced modulo the length.  Several reads of one by-value array on different
+// control-flow paths are the point (SPIR-V spills such an array to a function variable).
+func (g *wgen) elemRead(t *wty) *wexpr {
+	vs := g.visible(func(v wscopeVar) bool { return v.ty.k == "arr" && v.ty.n > 0 && v.ty.elem.eq(t) && !v.ptr && !v.global })
+	if len(vs) == 0 {
+		return nil
+	}
+	v := vs[g.c.rng.Intn(len(vs))]
+	var i *wexpr
+	if g.c.chance(0.3) || (!v.mutable && g.o.noValIdx) { // noValIdx: C04 finding (MSL RZSW ternary without parentheses)
+		i = &wexpr{k: "lit", ty: tU32, bits: uint32(g.c.rng.Intn(v.ty.n)), konst: true, small: true}
+	} else {
+		i = &wexpr{k: "bin", ty: tU32, op: "%", args: []*wexpr{g.load(tU32), {k: "lit", ty: tU32, bits: uint32(v.ty.n), konst: true, small: true}}}
+	}
+	if v.mutable {
+		g.f("array-read-var")
+	} else {
+		g.f("array-read-value")
+	}
+	return &wexpr{k: "idx", ty: t, args: []*wexpr{{k: "var", ty: v.ty, name: v.name}, i}}
 }
 
 func (g *wgen) callfn(t *wty, depth int) *wexpr {
@@ -1558,6 +1589,9 @@ func (g *wgen) stmt(depth int) *wstmt {
 		return &wstmt{k: "var", name: name, ty: t, e: init}
 	case r < 38:
 		t := g.valueTy()
+		if !g.o.noArrRead && g.c.chance(0.3) {
+			t = tArr(2+g.c.rng.Intn(3), g.scalarTy()) // by-value array: read through elemRead
+		}
 		name := g.fresh("ll")
 		e := g.expr(t, 3)
 		g.declare(wscopeVar{name: name, ty: t})
@@ -2341,4 +2375,69 @@ func hasNestedReturn(m *wmodule) bool {
 		}
 	}
 	return false
+}
+
+// hasMultiSpill: is some by-value array (a `let` binding or a by-value parameter) read with a run-time index at two or
+// more places of one function?  The decidable shape of the recorded SPIR-V defect C01-spv-spill-stored-once (the value is
+// stored to its spill variable only where the first such access is emitted).
+func hasMultiSpill(m *wmodule) bool {
+	check := func(f *wfunc) bool {
+		byValue := map[string]bool{}
+		for i, p := range f.params {
+			if p.ty.k == "arr" && !(i < len(f.ptrs) && f.ptrs[i]) {
+				byValue[p.name] = true
+			}
+		}
+		count := map[string]int{}
+		var we func(e *wexpr)
+		we = func(e *wexpr) {
+			if e == nil {
+				return
+			}
+			if e.k == "idx" && len(e.args) == 2 && e.args[0].k == "var" && byValue[e.args[0].name] && e.args[1].k != "lit" {
+				count[e.args[0].name]++
+			}
+			for _, a := range e.args {
+				we(a)
+			}
+		}
+		var ws func(l []*wstmt)
+		wst := func(st *wstmt) {}
+		wst = func(st *wstmt) {
+			if st == nil {
+				return
+			}
+			if st.k == "let" && st.ty != nil && st.ty.k == "arr" {
+				byValue[st.name] = true
+			}
+			we(st.e)
+			we(st.lhs)
+			we(st.brk)
+			wst(st.init)
+			wst(st.upd)
+			ws(st.body)
+			ws(st.els)
+			for _, cs := range st.cases {
+				ws(cs.body)
+			}
+		}
+		ws = func(l []*wstmt) {
+			for _, st := range l {
+				wst(st)
+			}
+		}
+		ws(f.body)
+		for _, n := range count {
+			if n >= 2 {
+				return true
+			}
+		}
+		return false
+	}
+	for _, f := range m.funcs {
+		if check(f) {
+			return true
+		}
+	}
+	return m.entry != nil && check(m.entry)
 }
